@@ -84,7 +84,11 @@ def keys_safe(doc):
 def shard(ctx):
     rng = ctx.rng("c11")
     n = 40 if ctx.quick else 1100
-    corpus = [d for i, d in enumerate(STRUCTS) if ctx.mine(i)]
+    # wide (not deep) documents: hundreds of siblings below one list / one map
+    wide = [{"records": [{"id": i, "name": "r%d" % i} for i in range(620)], "k": "v"},
+            {"Resources": {"res%03d" % i: {"Type": "AWS::S3::Bucket", "Properties": {"n": i}} for i in range(330)}},
+            {"l": list(range(1500)), "m": {"k%04d" % i: "v" for i in range(700)}}]
+    corpus = [d for i, d in enumerate(STRUCTS + wide) if ctx.mine(i)]
     for t in range(n + len(corpus)):
         doc = corpus[t] if t < len(corpus) else gen.gen_doc(rng, scalars=SCALARS)
         if t < len(corpus):
